@@ -9,7 +9,7 @@ OID with the right PDU type / max-repetitions, every yield is the next pair of t
 and at the end yielded = Subtree(MIB, base).  Walk.tla (TLC) is the design-level model of the iterator."""
 import json, asyncio
 from vlib import env, tlc, trace, corpus, scripts, apidrv, walks, agent as ag, sesscheck
-from vlib.report import Check, confirm_by_replay
+from vlib.report import Check, confirm_by_replay, timing_event
 from vlib.env import ToolError, SEED
 
 
@@ -208,11 +208,11 @@ def run(tier):
             sig["multi"] = info["multi"]
             chk.violation(sig, "%s %s, two walks %s (%s, variant %d): %s of walk %s: %s" % (info["kind"], info["cfg"], info["multi"], "two sessions" if info["two"] else "one session",
                           info["variant"], ev["ev"], ev.get("sid"), ev.get("exc") or json.dumps(ev.get("res"))[:100]),
-                          dict(info=info, events=rec.events[a:idxf + 1][-12:]), confirm=confirm_by_replay(replay, dict(info=info)))
+                          dict(info=info, events=rec.events[a:idxf + 1][-12:]), confirm=(confirm_by_replay(replay, dict(info=info)) if timing_event(ev) else None))
             continue
         chk.violation(sig, "%s %s %s walk of base %s over MIB of %d entries: %s %s" % (info["kind"], info["ver"], op, bytes(info["entry"]["basetext"]).decode(),
                                                                                   len(info["entry"]["mib"]), ev["ev"], ev.get("exc") or json.dumps(ev.get("res"))[:100]),
-                      dict(info=info, events=rec.events[a:idxf + 1][-12:]), confirm=confirm_by_replay(replay, dict(info=info)))
+                      dict(info=info, events=rec.events[a:idxf + 1][-12:]), confirm=(confirm_by_replay(replay, dict(info=info)) if timing_event(ev) else None))
     chk.sample(dict(kind="mib-base", entry=entries[500]))
     chk.extra["mib_base_pairs"] = len(entries)
     chk.sample(dict(kind="events", events=[{k: (x if k not in ("wire", "dgram", "interp", "mib") else "...") for k, x in e.items()} for e in rec.events[runs[300][0]:runs[300][0] + 8]]))
